@@ -187,11 +187,21 @@ def run(spec, mon):
         if not mon.want(["near", j]):
             continue
         mon.ev()
+        # the tick arrives as whatever the caller computed it in: int, numpy integer (a data-frame cell), float (a tick
+        # column after gap filling), Decimal (price arithmetic)
+        kind = crng.choice(["int", "int", "int", "numpy", "float", "decimal"])
+        arg = t
+        if kind != "int":
+            import numpy as np
+            from decimal import Decimal as _D
+
+            arg = {"numpy": np.int64, "float": float, "decimal": _D}[kind](t)
         try:
-            got = H.nearest_usable_tick(t, sp)
+            got = H.nearest_usable_tick(arg, sp)
         except Exception as e:  # noqa
-            mon.violation("uniswap", "nearest_usable_tick", "raises", type(e).__name__, f"{t},{sp}: {e!r}")
+            mon.violation("uniswap", "nearest_usable_tick", "raises", f"{type(e).__name__}/{kind}", f"{arg!r},{sp}: {e!r}")
             continue
+        mon.cls(f"near-arg/{kind}")
         want = O.nearest_usable(t, sp)
         edge = "end" if (t < O.MIN_TICK + 2 * sp or t > O.MAX_TICK - 2 * sp) else "mid"
         if got not in want:
